@@ -246,9 +246,22 @@ pub fn run_case(name: &str, opname: &str, front: &str, rep: &mut Report) -> Vec<
     } else {
         None
     };
-    let front_owned = front.replace("@.", "").replace('@', "");
+    // "plain~" / "sharded~": the write side is configured as `outer/current`, a symbolic link to the cache directory of
+    // the world; after the handle is built the link is re-pointed at a second, empty directory.  The configured path
+    // now names that directory: this is where the operation acts, and the old one is none of its business any more.
+    let retarget = front.contains('~');
+    let front_owned = front.replace("@.", "").replace('@', "").replace('~', "");
     let front = front_owned.as_str();
-    let (cfg, dirs, outer) = build_world(&sc, front);
+    let (cfg, mut dirs, outer) = build_world(&sc, front);
+    let old_cache = dirs.write.clone();
+    if retarget {
+        let link = outer.join("current");
+        shim::passthrough(|| {
+            std::fs::create_dir_all(outer.join("cache2")).unwrap();
+            std::os::unix::fs::symlink("cache", &link).unwrap();
+        });
+        dirs.write = link;
+    }
     let cache = match spelled {
         Some(sp) => {
             std::env::set_current_dir(&dirs.write).unwrap();
@@ -257,6 +270,12 @@ pub fn run_case(name: &str, opname: &str, front: &str, rep: &mut Report) -> Vec<
         }
         None => ops::build(&cfg, &dirs, None),
     };
+    if retarget {
+        shim::passthrough(|| {
+            std::fs::remove_file(&dirs.write).unwrap();
+            std::os::unix::fs::symlink("cache2", &dirs.write).unwrap();
+        });
+    }
     let op = make_op(opname, K::new(name, 1, 2));
     let before = world::snapshot(&sc.root);
     let maintain = front.ends_with("+maint");
@@ -325,7 +344,24 @@ pub fn run_case(name: &str, opname: &str, front: &str, rep: &mut Report) -> Vec<
     }
     let delta = world::diff(&before, &after, false);
     // differences under app_tmp are the application's own business
-    let delta: Vec<(String, String)> = delta.into_iter().filter(|d| !d.1.starts_with("app_tmp")).collect();
+    let mut delta: Vec<(String, String)> = delta.into_iter().filter(|d| !d.1.starts_with("app_tmp")).collect();
+    if retarget {
+        let old_rel = old_cache.strip_prefix(&sc.root).unwrap().to_string_lossy().into_owned();
+        for d in delta.iter().filter(|d| d.1 == old_rel || d.1.starts_with(&format!("{}/", old_rel))) {
+            bad.push(("retargeted-root".into(), format!("the configured path no longer names {}, yet the call changed it: {} {}", old_rel, d.0, d.1.chars().take(100).collect::<String>())));
+        }
+        // what the link now points at is the configured directory: judge its changes under the configured name
+        // (following the link stamps the link's own access time: the kernel's doing)
+        delta = delta
+            .into_iter()
+            .filter(|d| !(d.0 == "atime" && d.1 == "outer/current"))
+            // (the new directory is empty: the cache's own skeleton - shard and temp directories - is created on first
+            // use, also by an operation that then fails)
+            .filter(|d| !(d.0 == "+" && d.1.strip_prefix("outer/cache2/").map(|r| r.split('/').all(|c| c.starts_with(".kismet_"))).unwrap_or(false)))
+            .filter(|d| !(d.1 == old_rel || d.1.starts_with(&format!("{}/", old_rel))))
+            .map(|(k, rel)| (k, if rel == "outer/cache2" || rel.starts_with("outer/cache2/") { rel.replacen("outer/cache2", "outer/current", 1) } else { rel }))
+            .collect();
+    }
     let reserved = name.is_empty() || matches!(name.as_bytes()[0], b'.' | b'/' | b'\\');
     let is_err = res.is_err();
     let invalid_input = matches!(&res, Res::Err(ErrorKind::InvalidInput, _, _));
@@ -539,7 +575,7 @@ pub fn run(tier: Tier, shard: Shard, rep: &mut Report) {
          direct-child entry, plus a monitor on every mutating call's path; every name of length <= 2 (thorough 3) and the edge names \
          again in a world where maintenance is due (over capacity, stale debris in .kismet_temp, trigger firing): a reserved name (empty, or starting with '.', '/', '\\') is \
          rejected with InvalidInput and leaves that world unchanged too, and whatever the name, application dot-files (one of them not \
-         valid UTF-8) are neither deleted nor re-stamped by the maintenance. Every name of length <= 2 again on a plain cache named by the empty path and by a single dot (working directory = the cache directory): same oracle, entries land directly in that directory. Each publication step of writes under four accepted names refused in every plausible way \
+         valid UTF-8) are neither deleted nor re-stamped by the maintenance. Every name of length <= 2 again with the write side configured through a symbolic link that is re-pointed at another directory after the handle was built (the operation acts where the configured path now leads, the old directory stays as it is). Every name of length <= 2 again on a plain cache named by the empty path and by a single dot (working directory = the cache directory): same oracle, entries land directly in that directory. Each publication step of writes under four accepted names refused in every plausible way \
          (EXDEV, EMLINK, ...): every mutating call still lands on the key's own entry or in the cache's own structure. Plus, under concurrency (all schedules with <= 2 preemptions of a maintaining writer racing with a deleter or another \
          writer, sentinel files named like the entries one directory up): every mutating call lands inside the cache's own \
          directories. Non-trivial = accepted-by-first-byte name containing a separator, NUL, '..' or of extreme length.",
@@ -576,6 +612,19 @@ pub fn run(tier: Tier, shard: Shard, rep: &mut Report) {
                 }
                 rep.count("maintenance_due_cases", 1);
                 record(name, op, &format!("{}+maint", front), rep);
+            }
+        }
+    }
+    // the write side configured through a symbolic link that is re-pointed after the handle was built
+    for name in &names(2) {
+        for op in OPS.iter() {
+            for front in ["plain~", "sharded~", "stack~"] {
+                no += 1;
+                if !shard.mine(no) {
+                    continue;
+                }
+                rep.count("retargeted_root_cases", 1);
+                record(name, op, front, rep);
             }
         }
     }
